@@ -284,30 +284,28 @@ fn exec(line: &str, hist: &mut Hist, rec: &mut Recorder) {
     }
 }
 
-/// C12's message generator without the serials that run into the u32::MAX overflow panic
-/// (finding soa-serial-increment-overflow, C12): a panicking update is not a message boundary.
+/// C12's message generator (SOA serials up to and across u32::MAX included)
 fn gen_msg(rng: &mut Rng) -> String {
-    loop {
-        let mut m = c12::gen_msg(rng);
-        // most C14 messages carry no prerequisites, so that more of them reach the journal
-        if rng.chance(3, 5) {
-            if let Some(u) = m.find(" U") {
-                m = format!("upd P{}", &m[u..]);
-            }
-        }
-        if !(m.contains("s4294967295.") || m.contains("s4294967294.") || m.contains("s4294967280.")) {
-            return m;
+    let mut m = c12::gen_msg(rng);
+    // most C14 messages carry no prerequisites, so that more of them reach the journal
+    if rng.chance(3, 5) {
+        if let Some(u) = m.find(" U") {
+            m = format!("upd P{}", &m[u..]);
         }
     }
+    m
 }
 
+/// every fourth history starts one or two bumps before the serial wraps
 fn gen_begin(rng: &mut Rng) -> String {
-    loop {
-        let b = c12::gen_begin(rng, "beginj");
-        if !(b.contains("s4294967295.") || b.contains("s4294967294.") || b.contains("s4294967280.")) {
-            return b;
+    let b = c12::gen_begin(rng, "beginj");
+    if rng.chance(1, 4) {
+        if let (Some(i), Some(j)) = (b.find(",s"), b.find(".0 ")) {
+            let serial = *rng.pick(&[4294967295u32, 4294967294, 4294967293]);
+            return format!("{},s{}{}", &b[..i], serial, &b[j..]);
         }
     }
+    b
 }
 
 fn gen_history(rng: &mut Rng) -> Vec<String> {
